@@ -86,7 +86,9 @@ func (tds *Conn) NewChannel() (*Channel, error) {
 		errCh:              make(chan error, 10),
 	}
 
+	tds.tdsChannelsLock.Lock()
 	tds.tdsChannels[channelId] = tdsChan
+	tds.tdsChannelsLock.Unlock()
 
 	// channel 0 needs no setup
 	if channelId == 0 {
